@@ -4,7 +4,7 @@
    0 when order hints are off.
    Statements only; proofs are in Proofs_C22.v. *)
 From Coq Require Import ZArith List Lia.
-From SV Require Import RelDistSpec Proofs_C22.
+From SV Require Import RelDistSpec RelDistOrder Proofs_C22.
 From SVG Require Import RelDistGen.
 Import ListNotations.
 Local Open Scope Z_scope.
@@ -20,3 +20,17 @@ Proof. exact copies_ok. Qed.
 
 Theorem rel_dist_five_copies : length rel_dist_copies = 5%nat.
 Proof. exact copies_nonempty. Qed.
+
+(* what the helper is for: two pictures less than half an order-hint period apart are ordered correctly from their hints alone,
+   before and after the wrap, by every copy in the library: the value is their true signed distance *)
+Theorem rel_dist_copies_order_across_wrap :
+  Forall (fun f : Z -> Z -> Z -> Z -> Z =>
+    forall en bits A B, en <> 0 -> 1 <= bits <= 31 -> - 2 ^ (bits - 1) <= A - B < 2 ^ (bits - 1) ->
+      f en bits (A mod 2 ^ bits) (B mod 2 ^ bits) = A - B /\
+      (f en bits (A mod 2 ^ bits) (B mod 2 ^ bits) <? 0) = (A <? B)) rel_dist_copies.
+Proof. exact (copies_recover_true_distance rel_dist_copies copies_ok). Qed.
+
+(* ... which a plain comparison of two hints does not do (hence the obligation that Source/Lib contains none) *)
+Theorem plain_hint_comparison_refuted : exists bits A B, 1 <= bits <= 8 /\ - 2 ^ (bits - 1) <= A - B < 2 ^ (bits - 1) /\
+  (A mod 2 ^ bits <? B mod 2 ^ bits) <> (A <? B).
+Proof. exact RelDistOrder.plain_hint_comparison_refuted. Qed.
